@@ -81,8 +81,14 @@ def build(chk):
                 prove("speeds-ordered", sR - sL > 0, replay=rp)
                 C02.finish_hints(chk, H)
                 return
-            prove("einfeldt-bound/left", z3.And(sL <= 0, sL <= uL - cL), replay=rp)
-            prove("einfeldt-bound/right", z3.And(sR >= 0, sR >= uR + cR), replay=rp)
+            if name == "rusanov":
+                sLb, sRb = sL, sR
+            else:
+                # stated on the code's own values of sL, sR (not on the ghost cuts): a wrong estimate is refuted directly
+                sLb = T.treal(H.store[(1, "sL")]["real"].at(i))
+                sRb = T.treal(H.store[(1, "sR")]["real"].at(i))
+            prove("einfeldt-bound/left", z3.And(sLb <= 0, sLb <= uL - cL), replay=rp)
+            prove("einfeldt-bound/right", z3.And(sRb >= 0, sRb >= uR + cR), replay=rp)
             if name == "rusanov":
                 # stated on the code's own value of cmax (not on the ghost cut): a wrong estimate is refuted directly
                 cmr = T.treal(H.store[(1, "cmax")]["real"].at(i))
